@@ -671,6 +671,18 @@ do_retrieve(void)
     rb->unord_link->end_pos = rb->curr_pos;
   }
 
+  if (rv == MORE && rb->curr_pos.offset < head_offs) {
+    /* The master has meanwhile advanced past our position and released the
+       input we would need next, so we can't be legitimate.  Release this job
+       the same way advance() releases overtaken jobs waiting in retr_q. */
+    Trace(("Retriever was overtaken by master"));
+    decoder_free(&rb->ds);
+    free(rb);
+    work_units++;
+    check_invariants();
+    return;
+  }
+
   if (rv == MORE) {
     Trace(("Retriever blocked waiting for input"));
     enqueue(retr_q, rb);
